@@ -95,7 +95,7 @@ func (o jsonObject) ident(options []Option) [8]byte {
 	return hashes.combine()
 }
 
-func (o jsonObject) pathIdent(pathObject jsonObject, options []Option) [8]byte {
+func (o jsonObject) pathIdent(pathObject jsonObject, absentIsNull bool, options []Option) [8]byte {
 	keys := []string{}
 	for k := range pathObject {
 		keys = append(keys, k)
@@ -104,6 +104,9 @@ func (o jsonObject) pathIdent(pathObject jsonObject, options []Option) [8]byte {
 	for _, key := range keys {
 		if value, ok := o[key]; ok {
 			id[key] = value
+		} else if _, isNull := pathObject[key].(jsonNull); isNull && absentIsNull {
+			// newPathSetKeys writes null for a set key the object does not have.
+			id[key] = nil
 		}
 	}
 	e, _ := NewJsonNode(id)
